@@ -187,7 +187,8 @@ pub struct Families {
 }
 
 pub fn families(quick: bool) -> Families {
-    let depth = if quick { Depth::Single } else { Depth::Pairs };
+    let depth = Depth::Pairs;
+    let _ = quick;
     let mut out: Vec<(&'static str, Vec<Req>, Depth, usize)> = vec![];
     // A. start line product
     let paths = ["/", "/a", "/a/b.c", "/é", "/%20x", "/a//b"];
